@@ -49,10 +49,11 @@ static inline void model_nondet(Model& m) {
 // the maps a model stands for
 static inline void maps_of(const Model& m, PMap& pm, WMap& wm) {
   for (unsigned g = 0; g < 4; g++) { pm.assigned._masks[g] = 0; pm.dirty._masks[g] = 0; }
-  for (unsigned g = 0; g < G; g++) for (unsigned p = 0; p < PC[g]; p++) {
+  for (unsigned i = 0; i < TOTAL; i++) {              // one flat loop over the map entries: i = BASE[g] + p
+    const unsigned g = i < BASE[1] ? 0 : i < BASE[2] ? 1 : i < BASE[3] ? 2 : 3, p = i - BASE[g];
     RAWorkId id = kBadWorkId; bool d = false;
     for (unsigned w = 0; w < W; w++) if (m.grp[w] == g && m.loc[w] == p) { id = RAWorkId(w); d = m.dirty[w]; }
-    pm.work_ids[BASE[g] + p] = id;
+    pm.work_ids[i] = id;
     if (id != kBadWorkId) pm.assigned._masks[g] |= 1u << p;
     if (d) pm.dirty._masks[g] |= 1u << p;
   }
